@@ -811,7 +811,7 @@ func TestVerif_C17(t *testing.T) {
 		maxDiffLayers = 1
 		defer func() { maxDiffLayers = old }()
 
-		maxLen := mc.Pick(r, 3, 5)
+		maxLen := mc.Pick(r, 3, 4)
 		maxCommits := mc.Pick(r, 1, 2)
 		r.Rule("all canonical histories of 1..L state transitions over the delta alphabet {create/modify A, A.slot0:=1|2|absent, A.slot1:=1, destruct A, " +
 			"destruct-and-recreate A, create/modify B, B.slot0:=1, destruct B} (only enabled deltas; a sender account's nonce changes in every transition), " +
